@@ -262,6 +262,17 @@ func TestVerifC13(t *testing.T) {
 		if rng.Intn(6) == 0 {
 			sdp = "v=0\r\no=- 1 2 IN IP4 0.0.0.0\r\ns=-\r\nt=0 0\r\na=candidate:1 1 udp 2 192.168.1.2 5000 typ host\r\n" + sdp
 		}
+		if rng.Intn(8) == 0 {
+			// text that looks like JSON escapes once serialised: literal backslashes in front of u003c / u0026 / n / ", HTML characters
+			frag := []string{"\\u003c", "\\u003e", "\\u0026", "\\\\u003c", "\\n", "\\\"", "\\", "<", ">", "&", "\\u2028", "\u2028", "</script>", "\\x41", "\\/"}
+			for k := 0; k < 1+rng.Intn(4); k++ {
+				j := rng.Intn(len(sdp) + 1)
+				for j > 0 && j < len(sdp) && !utf8.RuneStart(sdp[j]) {
+					j--
+				}
+				sdp = sdp[:j] + frag[rng.Intn(len(frag))] + sdp[j:]
+			}
+		}
 		realSer := c13Serialize(ty, sdp)
 		mt := ty
 		if mt < 0 || mt > 4 {
